@@ -358,6 +358,8 @@ class RuntimeContext:
         self.errors = []
         self.tmp_errors = []
         self.warnings = []
+        # names of the fields whose (invalid) value was left out under the 'exclude' policy in this context
+        self.excluded_fields = set()
         self.cls = cls
         # self.cls_routes = []
         self.error_hooks = error_hooks
